@@ -260,7 +260,7 @@ class BagComponent(Component):
     name = "bag"
 
     def make(self, rng, params):
-        keys = ["u0", "u1", "u2", "ALU", "b"]
+        keys = ["u0", "u1", "u2", "ALU", "alu", "B", "b"]
         vals = params.get("vals") or [[0, "U"], [0, "D"], [1, "U"], [1, "S"], [2, "D"]]
 
         def rec():
@@ -378,11 +378,12 @@ class ParseComponent(Component):
             i = rng.randrange(len(instrs))
             corrupt = ["noops", i] if rng.random() < 0.4 else ["empty", i, rng.randrange(len(instrs[i][1]))]
         lines = gen.render_program(rng, instrs, corrupt)
-        return {"lines": lines, "instrs": instrs, "corrupt": corrupt}
+        return {"lines": lines, "instrs": instrs, "corrupt": corrupt,
+                "form": rng.choice(["list", "list", "tuple", "generator", "file"])}
 
     def run(self, case):
         import implrun
-        impl = implrun.run_parse(case["lines"])
+        impl = implrun.run_parse(case["lines"], case.get("form", "list"))
         return [list(case["lines"])], impl
 
     def judge(self, case, impl, res):
@@ -439,11 +440,12 @@ class IsaComponent(Component):
             name = gen.recase(rng, rng.choice(mn), 0.5) if rng.random() < 0.9 else "FOO"
             srcs = sorted({f"R{rng.randint(0, 4)}" for _ in range(rng.randint(0, 3))})
             prog.append([srcs, f"R{rng.randint(0, 4)}", name, k + 1 + rng.randint(0, 2)])
-        return {"spec": spec, "caps": caps, "prog": prog}
+        return {"spec": spec, "caps": caps, "prog": prog,
+                "form": rng.choice(["list", "list", "tuple", "items", "generator", "zip"])}
 
     def run(self, case):
         import implrun
-        impl = implrun.run_isa(case["spec"], case["caps"], case["prog"])
+        impl = implrun.run_isa(case["spec"], case["caps"], case["prog"], case.get("form", "list"))
         return [case["spec"], case["caps"], case["prog"]], impl
 
     def judge(self, case, impl, res):
